@@ -36,10 +36,13 @@ package p2p
 
 // ---- Exchange client: request planning (C18, C05) and quorum arithmetic (C09)
 
+//@ pure quorumOf(n) = ite(n <= 2, n, (n * 2 + 2) / 3)
+
 //@ func minHeadResponses(numPeers)
 //@   props C09
 //@   requires 0 <= numPeers && numPeers <= 140737488355328
 //@   ensures [C09] small: numPeers <= 2 ==> result == numPeers
+//@   ensures [C09] exact: result == quorumOf(numPeers)
 //@   ensures [C09] two-thirds: numPeers >= 3 ==> 3 * result >= 2 * numPeers && 3 * (result - 1) < 2 * numPeers
 
 //@ func prepareRequests(from, amount, headersPerPeer)
@@ -219,3 +222,31 @@ package p2p
 //@   ensures [C05] in-range: result1 == nil ==> forall a int @ at(result0, a) :: off(result0) <= a && a < off(result0) + len(result0) ==> from.Height() < at(result0, a).Height() && at(result0, a).Height() < to && validated(at(result0, a)) && !at(result0, a).IsZero()
 //@   ensures [C05] ascending: result1 == nil ==> forall a int, b int @ at(result0, a), at(result0, b) :: off(result0) <= a && a < b && b < off(result0) + len(result0) ==> at(result0, a).Height() <= at(result0, b).Height()
 //@   ensures [C05] error-no-headers: result1 != nil ==> len(result0) == 0
+
+// ---- Exchange.Head (C09)
+
+//@ pure headMsgOK(m, tracked, trusted) = m.h.IsZero() || (!tracked && m.softErr == nil && validated(m.h)) || (tracked && validated(m.h) && ((m.softErr == nil && passedVerify(trusted, m.h)) || (m.softErr != nil && asVerr(m.softErr) != nil && asVerr(m.softErr).SoftFailure)))
+//@ chaninv (*Exchange).Head.headerRespCh(m): headMsgOK(m, useTrackedPeers, reqParams.TrustedHead)
+
+//@ func (*Exchange).Head$1(from)
+//@   props C09
+//@   requires zero.IsZero()
+//@   modifies $now, header.VerifyError.SoftFailure
+//@   ensures [C09] answers-exactly-once: sent("(*Exchange).Head.headerRespCh") == old(sent("(*Exchange).Head.headerRespCh")) + 1
+
+//@ pure softErrsOK(m) = forall k string @ has(m, k) :: has(m, k) ==> m[k] != nil && asVerr(m[k]) != nil && asVerr(m[k]).SoftFailure
+
+//@ func (*Exchange).Head(ex, ctx, opts)
+//@   props C09
+//@   modifies $now, header.HeadParams.TrustedHead, elems(H), elems(string), MH_Str_Err_has, MH_Str_Err_val, MH_Str_Int_has, MH_Str_Int_val, F_p2p_headResp_h, F_p2p_headResp_softErr, pb.HeaderRequest.Amount, pb.HeaderRequest.Data, pb.HeaderRequest_Origin.Origin
+//@   ensures [C09] valid: !result0.IsZero() ==> validated(result0)
+//@   ensures [C09] soft-paired: result1 != nil && !result0.IsZero() ==> asVerr(result1) != nil && asVerr(result1).SoftFailure
+//@   ensures [C09] verified-when-nil: result1 == nil && cur(useTrackedPeers) ==> !result0.IsZero() && passedVerify(cur(reqParams).TrustedHead, result0)
+//@   ensures [C09] not-found-means-zero: result1 == header.ErrNotFound ==> result0.IsZero()
+//@   ensures [C09] quorum-or-exhausted: !result0.IsZero() ==> cur(counter)[hexStr(result0.Hash())] >= quorumOf(len(cur(peers))) || cur(rangeindex#2) + 1 >= len(cur(peers))
+//@   ensures [C09] highest-without-quorum: !result0.IsZero() && cur(counter)[hexStr(result0.Hash())] < quorumOf(len(cur(peers))) ==> forall a int @ at(cur(headers), a) :: off(cur(headers)) <= a && a < off(cur(headers)) + len(cur(headers)) ==> at(cur(headers), a).Height() <= result0.Height()
+//@   ensures [C09] tracked-iff-trusted-head: cur(useTrackedPeers) <==> !cur(reqParams).TrustedHead.IsZero()
+//@ loop 2:
+//@   invariant soft-errors: softErrsOK(softErrs)
+//@   invariant collected: forall a int @ at(headers, a) :: off(headers) <= a && a < off(headers) + len(headers) ==> !at(headers, a).IsZero() && validated(at(headers, a)) && (useTrackedPeers ==> (passedVerify(reqParams.TrustedHead, at(headers, a)) || has(softErrs, at(headers, a).Hash().String())))
+//@   invariant frame: fresh(arr(headers)) && zero.IsZero()
